@@ -160,14 +160,20 @@ func ZZ_C28_votev2() {
 // ZZ_C28_returnvotes: a return-votes transaction that passes its special
 // context check (Schnorr payload version: no payload signature) returns a
 // positive amount that is, in exact arithmetic, at most the vote rights not
-// in use by DPoS v2 votes and not in use by CR votes. Rights and the two used
-// amounts arbitrary with 0 <= used <= rights <= 2^60; the returned value is an
+// in use in any category: DPoS v2 votes, CR votes, CR impeachment votes, CR
+// proposal votes and — until DPoS 2.0 is active — DPoS 1.0 votes, both
+// before and after DPoSV2ActiveHeight. Rights and the five used amounts
+// arbitrary with 0 <= used <= rights <= 2^60; the returned value is an
 // arbitrary int64.
 func ZZ_C28_returnvotes() {
 	cfg := &config.Configuration{}
 	cfg.CRConfiguration.RealWithdrawSingleFee = 10000
 	st := &state.State{StateKeyFrame: state.NewStateKeyFrame(), ChainParams: cfg}
+	v2Active := nd.Bool("dposV2Active")
 	st.DPoSV2ActiveHeight = 50
+	if !v2Active {
+		st.DPoSV2ActiveHeight = 200
+	}
 	committee := crstate.ZZNewCommittee(cfg)
 	chain := blockchain.ZZNewChain(cfg, st, committee)
 
@@ -175,12 +181,17 @@ func ZZ_C28_returnvotes() {
 	code := append(append([]byte{33}, voter...), common.STANDARD)
 	c, _ := contract.CreateStakeContractByCode(code)
 	ct := *c.ToProgramHash()
-	rights, usedV2, usedCR := zzAmount("voteRights"), zzAmount("usedV2Votes"), zzAmount("usedCRVotes")
-	nd.Assume(usedV2 <= rights)
-	nd.Assume(usedCR <= rights)
+	rights := zzAmount("voteRights")
+	usedV1, usedV2, usedCR := zzAmount("usedV1Votes"), zzAmount("usedV2Votes"), zzAmount("usedCRVotes")
+	usedImpeachment, usedProposal := zzAmount("usedImpeachmentVotes"), zzAmount("usedProposalVotes")
+	nd.Assume(usedV1 <= rights && usedV2 <= rights && usedCR <= rights && usedImpeachment <= rights && usedProposal <= rights)
 	st.DposV2VoteRights[ct] = rights
 	st.UsedDposV2Votes[ct] = usedV2
-	committee.GetState().UsedCRVotes[ct] = []payload.VotesWithLockTime{{Candidate: zzKeyBytes(1), Votes: usedCR}}
+	st.UsedDposVotes[ct] = []payload.VotesWithLockTime{{Candidate: zzKeyBytes(1), Votes: usedV1}}
+	cs := committee.GetState()
+	cs.UsedCRVotes[ct] = []payload.VotesWithLockTime{{Candidate: zzKeyBytes(1), Votes: usedCR}}
+	cs.UsedCRImpeachmentVotes[ct] = []payload.VotesWithLockTime{{Candidate: zzKeyBytes(2), Votes: usedImpeachment}}
+	cs.UsedCRCProposalVotes[ct] = []payload.VotesWithLockTime{{Candidate: zzKeyBytes(3), Votes: usedProposal}}
 
 	value := common.Fixed64(nd.U64("returnValue"))
 	tx := &ReturnVotesTransaction{}
@@ -205,4 +216,9 @@ func ZZ_C28_returnvotes() {
 	nd.Assert(value > 0, "returned_amount_is_positive")
 	nd.Assert(value <= rights-usedV2, "returned_amount_is_at_most_the_rights_not_used_by_dpos_v2_votes")
 	nd.Assert(value <= rights-usedCR, "returned_amount_is_at_most_the_rights_not_used_by_cr_votes")
+	nd.Assert(value <= rights-usedImpeachment, "returned_amount_is_at_most_the_rights_not_used_by_impeachment_votes")
+	nd.Assert(value <= rights-usedProposal, "returned_amount_is_at_most_the_rights_not_used_by_proposal_votes")
+	if !v2Active {
+		nd.Assert(value <= rights-usedV1, "returned_amount_is_at_most_the_rights_not_used_by_dpos_v1_votes_before_activation")
+	}
 }
